@@ -1115,3 +1115,40 @@ package zap
 //@   ensures len(fields) == 0 ==> result == log && #W == 0
 //@   ensures len(fields) > 0 ==> fresh(result) && #W == 1 && W.recv[0] == old(log.core) && W.arg0[0] == fields && result.core == W.ret0[0] && result.name == old(log.name) && result.callerSkip == old(log.callerSkip) && result.development == old(log.development) && result.addCaller == old(log.addCaller) && result.onPanic == old(log.onPanic) && result.onFatal == old(log.onFatal) && result.errorOutput == old(log.errorOutput) && result.addStack == old(log.addStack) && result.clock == old(log.clock)
 //@   ensures *log == old(*log)
+
+// ---------------------------------------------------------------------------
+// Lock discipline (C09): guarded-by declarations. Every access site must lie in a function
+// under contract for C09 (coverage scan), where it yields a lock.guard obligation.
+
+//@ guarded var zap._globalL by zap._globalMu props C09
+//@ guarded var zap._globalS by zap._globalMu props C09
+//@ guarded var zap._encoderNameToConstructor by zap._encoderMutex props C09
+//@ guarded zap.sinkRegistry.factories by mu props C09
+
+//@ func zap.L
+//@   props C09
+//@   flags nopanic
+//@   requires !held(&_globalMu)
+//@   modifies held(&_globalMu)
+//@   ensures !held(&_globalMu) && result == _globalL
+
+//@ func zap.S
+//@   props C09
+//@   flags nopanic
+//@   requires !held(&_globalMu)
+//@   modifies held(&_globalMu)
+//@   ensures !held(&_globalMu) && result == _globalS
+
+//@ func zap.ReplaceGlobals
+//@   props C09
+//@   flags nopanic
+//@   requires !held(&_globalMu) && logger != nil && -1000000 <= logger.callerSkip && logger.callerSkip <= 1000000
+//@   modifies held(&_globalMu), comp(C:_zap.Logger), comp(C:_zap.SugaredLogger)
+//@   ensures !held(&_globalMu) && _globalL == logger && _globalS != nil && _globalS.base.callerSkip == logger.callerSkip + 2
+//@   ensures result != nil
+
+//@ func zap.newSinkRegistry
+//@   props C09 C19
+//@   flags nopanic
+//@   modifies comp(MD:map_string_func__net_url.URL___zap.Sink__error_), comp(MV:map_string_func__net_url.URL___zap.Sink__error_)
+//@   ensures fresh(result) && result.factories != nil && result.openFile != nil && !held(&result.mu)
